@@ -1984,7 +1984,7 @@ impl Parser {
                     let ty = Self::r#type(child)?;
                     type_vec.push(ty);
                 }
-                other_rule => unreachable!("{other_rule:?}"),
+                other_rule => bail!("{other_rule:?} is not supported inside a fixed-shape list type"),
             }
         }
 
